@@ -217,6 +217,76 @@ def kernel_tie(ctx, exe, n_swc, n_isect):
     return True
 
 
+# ----------------------------------------------------------------------------- ring assembly tie (coq/model/Rings.v)
+def gen_ring_ops(rng, n):
+    """a valid operation sequence for cx_ringasm: hotness of the eight edges is tracked exactly (AddLocalMinPoly makes
+    both edges hot, a non-failing AddLocalMaxPoly makes both cold, SwapOutrecs exchanges hotness)"""
+    hot, ops = set(), []
+    for _ in range(n):
+        r = rng.below(10)
+        cold = [e for e in range(8) if e not in hot]
+        pt = '%d %d' % (rng.range(-3, 3), rng.range(-3, 3))
+        if r < 3 and len(cold) >= 2:
+            rng.shuffle(cold)
+            ops.append('M %d %d %s %d' % (cold[0], cold[1], pt, rng.below(2)))
+            hot |= {cold[0], cold[1]}
+        elif r < 7 and hot:
+            ops.append('A %d %s' % (rng.choice(sorted(hot)), pt))
+        elif r < 9 and len(hot) >= 2:
+            h = sorted(hot)
+            rng.shuffle(h)
+            ops.append('X %d %d %s' % (h[0], h[1], pt))
+            hot -= {h[0], h[1]}
+        else:
+            es = list(range(8))
+            rng.shuffle(es)
+            a, b = es[0], es[1]
+            if a not in hot and b not in hot:      # SwapOutrecs dereferences a null OutRec then; the engine never does that
+                continue
+            ops.append('S %d %d' % (a, b))
+            ha, hb = a in hot, b in hot
+            hot -= {a, b}
+            if ha:
+                hot.add(b)
+            if hb:
+                hot.add(a)
+    return 'RA %d %s' % (len(ops), ' '.join(ops))
+
+
+def ring_tie(ctx, n):
+    """Exact correspondence between the extracted ring-assembly model and the real AddLocalMinPoly / AddOutPt /
+    AddLocalMaxPoly / JoinOutrecPaths / SwapOutrecs (ASan+UBSan build, private access)."""
+    try:
+        exe = vf.build_cpp(ctx, 'cx_ringasm.cpp', 'asan')
+    except vf.BuildFailure as e:
+        ctx.violation('tie-break:cx_ringasm', 'ring-assembly harness no longer builds: %s' % str(e)[-600:],
+                      replay=dict(error=str(e)[-2000:]), nofail=True)
+        return
+    oracle = vf.oracle_build('rings')
+    rng = ctx.rng.fork(11)
+    lines = [gen_ring_ops(rng, rng.range(1, 40)) for _ in range(n)]
+    impl, f1 = vf.par_lines(exe, lines, timeout=300)
+    if f1:
+        l, rc, err = vf.isolate_failure(exe, f1[0][0])
+        ctx.violation('crash.ring-assembly', 'ring assembly primitives crashed / sanitizer report on a valid operation sequence (rc=%s): %s' % (rc, (err or f1[0][2])[-400:]),
+                      replay=dict(kind='ringasm', line=l or f1[0][0][:5]))
+        return
+    model, f2 = vf.par_lines(oracle, lines)
+    if f2:
+        raise vf.Infra('rings oracle failed: %s' % f2[0][2][-500:])
+    bad = [(l, a, b) for l, a, b in zip(lines, impl, model) if a.split() != b.split()]
+    ctx.cov['ring_tie_cases'] = len(lines)
+    ctx.cov['ring_tie_disagreements'] = len(bad)
+    ctx.cov['ring_tie_outcomes'] = dict(ok=sum(1 for a in impl if a.startswith('OK')), fail=sum(1 for a in impl if a.startswith('FAIL')))
+    if bad:
+        bad.sort(key=lambda x: len(x[0]))
+        l, a, b = bad[0]
+        ctx.cov['ring_tie_first_disagreement'] = dict(case=l, impl=a, model=b)
+        ctx.violation('tie-break:Rings', 'ring assembly model (coq/model/Rings.v) and the engine disagree on %d of %d operation '
+                      'sequences, e.g. `%s`: engine `%s` model `%s`' % (len(bad), len(lines), l[:200], a[:200], b[:200]),
+                      replay=dict(kind='ringasm', line=l, impl=a, model=b), nofail=True)
+
+
 def execute_internal_hash():
     """token hash of ClipperBase::ExecuteInternal's body: the SNAP driver replicates it"""
     import re, hashlib
@@ -305,6 +375,7 @@ def run(ctx):
         ctx.tie_broken = [('cx_sweep.cpp does not build', str(e)[-800:], '')]
     if not tie_ok:
         n *= 4
+    ring_tie(ctx, 20000 if ctx.quick else 400000)
     cases = gen_cases(ctx, n)
     if sweep_exe and tie_ok:
         snapshots(ctx, sweep_exe, cases)
